@@ -332,8 +332,9 @@ static Outcome run(tape_t const& tape)
             break;
         }
     }
-    q.finish();
+    q.enter_stop_mode([] { return true; });
     if (out.kind == Outcome::PASS) stop_runtime();
+    q.finish();
     add_monitor_counters(out);
     long long handoffs = 0;
     for (auto& ch : chans) handoffs += ch->spec.rounds;
